@@ -3,7 +3,7 @@
    measurement -> (element, numeric side bus), cost -> element, group member, controller target, res_ index)
    names an existing primary key ([refs] lists them; [keys] are the table indices). *)
 From Coq Require Import ZArith List Bool String.
-From PPV Require Import C22.Model C22.Proofs.
+From PPV Require Import C22.Model C22.Proofs C22.Proofs2.
 Import ListNotations.
 Open Scope Z_scope.
 
@@ -67,14 +67,117 @@ Theorem C22_inv_step_reindex_elements_partial : forall n k lk n',
 Proof. intros. apply Inv_Resolves. eapply inv_step_reindex_elements; eauto. apply Inv_Resolves. assumption. Qed.
 Print Assumptions C22_inv_step_reindex_elements_partial.
 
+(* drop_buses(net, buses, drop_elements=True): the whole cascade (group members, bus and res_bus rows, controllers of the
+   connected elements, every element_bus_tuples() column in turn through drop_lines / drop_trafos / the generic cascade,
+   switches at the buses, bus measurements) keeps the invariant under G22_drop_buses: rows have no more bus columns than
+   element_bus_tuples() lists (schema), no row of an unlisted table (svc) sits at the buses, no measurement names one of the
+   buses as its numeric side, and - evaluated on the state after drop_controllers_at_buses - no remaining controller targets
+   an element at the buses and no cost row sits on a line/trafo at the buses *)
+Theorem C22_inv_step_drop_buses_partial : forall n buses n',
+  G22_drop_buses n buses = true -> Resolves n -> drop_buses n buses true = Ok n' -> Resolves n'.
+Proof. exact inv_step_drop_buses. Qed.
+Print Assumptions C22_inv_step_drop_buses_partial.
+Theorem C22_inv_step_drop_buses_refuted :
+  (exists n bs n', inv n = true /\ drop_buses n bs true = Ok n' /\ inv_el n' = false) /\
+  (exists n bs n', inv n = true /\ drop_buses n bs true = Ok n' /\ inv_ctrl n' = false).
+Proof. exact drop_buses_now_refuted. Qed.
+Print Assumptions C22_inv_step_drop_buses_refuted.
+
+(* drop_elements(net, element_type, index): bus -> drop_buses, line / trafo / trafo3w -> drop_lines / drop_trafos (guards as
+   above), switch and measurement rows (no guard), any other element table through drop_elements_simple (group members,
+   measurements, costs, result rows cascade) when no controller targets a dropped element (G22_noctrl) *)
+Theorem C22_inv_step_drop_elements_partial : forall n t ids n',
+  G22 n (ODropElements t ids) = true -> Resolves n -> drop_elements n t ids = Ok n' -> Resolves n'.
+Proof. exact inv_step_drop_elements. Qed.
+Print Assumptions C22_inv_step_drop_elements_partial.
+Theorem C22_inv_step_drop_elements_switch_measurement : forall n ids n',
+  Resolves n -> (drop_elements n TSwitch ids = Ok n' \/ drop_elements n TMeas ids = Ok n') -> Resolves n'.
+Proof. intros n ids n' R [E|E]; [eapply inv_step_drop_switch_rows | eapply inv_step_drop_meas_rows]; eauto. Qed.
+Print Assumptions C22_inv_step_drop_elements_switch_measurement.
+Theorem C22_inv_step_drop_elements_refuted :
+  exists n ids n', inv n = true /\ drop_elements n (TEl Load) ids = Ok n' /\ inv_ctrl n' = false.
+Proof. exact drop_simple_refuted. Qed.
+Print Assumptions C22_inv_step_drop_elements_refuted.
+
+(* select_subnet (any bus selection, include_switch_buses, include_results) under G22_select: the numeric side of every
+   measurement is a bus of the measured element, and keep_everything_else is off or there is nothing it would copy
+   unfiltered (groups, controllers, unlisted tables) *)
+Theorem C22_inv_step_select_subnet_partial : forall n bs isb ires keep n',
+  G22_select n keep = true -> Resolves n -> select_subnet n bs isb ires keep = Ok n' -> Resolves n'.
+Proof. intros. apply Inv_Resolves. eapply inv_step_select_subnet; eauto. apply Inv_Resolves. assumption. Qed.
+Print Assumptions C22_inv_step_select_subnet_partial.
+Theorem C22_select_subnet_side_refuted :
+  exists n bs n', inv n = true /\ select_subnet n bs false false false = Ok n' /\ inv_meas n' = false.
+Proof. exact select_subnet_side_refuted. Qed.
+Print Assumptions C22_select_subnet_side_refuted.
+
+(* reindex_buses (any lookup; buses missing in it keep their index) and create_continuous_bus_index: every bus reference of
+   the listed tables, switches (bus and bus-bus element), bus measurements, numeric sides, bus groups and res_bus follow
+   the lookup; guard: the rows of the unlisted tables (svc) are not moved by the completed lookup (C22_reindex_buses_refuted
+   otherwise) *)
+Theorem C22_inv_step_reindex_buses_partial : forall n lk n',
+  G22_reindex_buses n lk = true -> Resolves n -> reindex_buses n lk = Ok n' -> Resolves n'.
+Proof. intros. apply Inv_Resolves. eapply inv_step_reindex_buses; eauto. apply Inv_Resolves. assumption. Qed.
+Print Assumptions C22_inv_step_reindex_buses_partial.
+Theorem C22_inv_step_cont_bus_index_partial : forall n start n',
+  G22_cont_bus n start = true -> Resolves n -> cont_bus_index n start = Ok n' -> Resolves n'.
+Proof. intros. apply Inv_Resolves. eapply inv_step_cont_bus_index; eauto. apply Inv_Resolves. assumption. Qed.
+Print Assumptions C22_inv_step_cont_bus_index_partial.
+Example C22_reindex_buses_guard_nonvacuous :
+  exists n lk n', G22_reindex_buses n lk = true /\ inv n = true /\ reindex_buses n lk = Ok n' /\ bus_ids n' = [5; 1] /\ el_ids n Svc = [0].
+Proof. exact reindex_buses_guard_nonvacuous. Qed.
+Print Assumptions C22_reindex_buses_guard_nonvacuous.
+
+(* fuse_buses(net, b1, b2, drop, fuse_bus_measurements): rerouting of every listed bus column, switch and (with
+   fuse_bus_measurements) bus measurement / numeric side, then drop_buses(b2, drop_elements=False), the inner branches
+   (drop_lines, drop_elements_simple(impedance), b1-b1 switches, drop_trafos x2, drop_elements_simple(dcline)) and
+   drop_duplicated_measurements.  Guard G22_fuse: b1 exists (not checked by the impl); with drop: no row of an unlisted table
+   at b2, measurements are fused or none refers to b2, no controller / branch cost on a branch that becomes inner *)
+Theorem C22_inv_step_fuse_buses_partial : forall n b1 b2 drop fm n',
+  G22_fuse n b1 b2 drop fm = true -> Resolves n -> fuse_buses n b1 b2 drop fm = Ok n' -> Resolves n'.
+Proof. exact inv_step_fuse_buses. Qed.
+Print Assumptions C22_inv_step_fuse_buses_partial.
+Theorem C22_inv_step_fuse_buses_refuted :
+  (exists n b1 b2 n', inv n = true /\ fuse_buses n b1 b2 false true = Ok n' /\ inv_el n' = false) /\
+  (exists n b1 b2 n', inv n = true /\ fuse_buses n b1 b2 true false = Ok n' /\ inv_meas n' = false).
+Proof. exact fuse_buses_now_refuted. Qed.
+Print Assumptions C22_inv_step_fuse_buses_refuted.
+Example C22_fuse_buses_guard_nonvacuous :
+  exists n n', G22_fuse n 0 [1; 2] true true = true /\ inv n = true /\ fuse_buses n 0 [1; 2] true true = Ok n' /\
+               bus_ids n' = [0] /\ el_ids n Line = [0; 1] /\ el_ids n' Line = [] /\ map ebus (el n' Load) = [[0]].
+Proof. exact fuse_buses_guard_nonvacuous. Qed.
+Print Assumptions C22_fuse_buses_guard_nonvacuous.
+
+(* reindex_elements on the switch, measurement, poly_cost and pwl_cost tables: no guard (switch group members follow) *)
+Theorem C22_inv_step_reindex_plain_tables : forall n t lk n',
+  (t = TSwitch \/ t = TMeas \/ t = TPcost \/ t = TWcost) -> Resolves n -> reindex_elements n t lk = Ok n' -> Resolves n'.
+Proof. intros. apply Inv_Resolves. eapply inv_step_reindex_plain; eauto. apply Inv_Resolves. assumption. Qed.
+Print Assumptions C22_inv_step_reindex_plain_tables.
+
+(* create_continuous_elements_index: create_continuous_bus_index, then every table sorted and renumbered start.. through
+   reindex_elements, its res_ table renumbered on its own by position.  The guard G22_cont_elements follows the run of the
+   loop: for each element table, on the state the loop has reached, no controller targets a re-indexed element and the table
+   index and the res_ index are duplicate free (then the positional res_ numbering stays inside the new table index) *)
+Theorem C22_inv_step_cont_elements_index_partial : forall n start n',
+  G22_cont_elements n start = true -> Resolves n -> cont_elements_index n start = Ok n' -> Resolves n'.
+Proof. intros. apply Inv_Resolves. eapply inv_step_cont_elements_index; eauto. apply Inv_Resolves. assumption. Qed.
+Print Assumptions C22_inv_step_cont_elements_index_partial.
+Example C22_cont_elements_guard_nonvacuous :
+  exists n n', G22_cont_elements n 10 = true /\ inv n = true /\ cont_elements_index n 10 = Ok n' /\
+               bus_ids n' = [10; 11; 12] /\ el_ids n Line = [7; 3] /\ el_ids n' Line = [10; 11] /\ res n' Line = [10; 11] /\
+               map sel (sw n') = [11] /\ map gmem (grp n') = [[11]].
+Proof. exact cont_elements_guard_nonvacuous. Qed.
+Print Assumptions C22_cont_elements_guard_nonvacuous.
+
 (* reachability: every net reached from the empty net by a guarded edit list satisfies the invariant
    (induction over the list; G22 is [false] for the edits that have no inv_step theorem) *)
 Theorem C22_inv_reachable : forall ops n, Resolves n -> guarded n ops = true -> Resolves (run_ops n ops).
 Proof. intros. apply Inv_Resolves, inv_reachable; [apply Inv_Resolves|]; assumption. Qed.
 Print Assumptions C22_inv_reachable.
 Example C22_inv_reachable_nonvacuous :
-  guarded empty_net ex_ops = true /\ el_ids (run_ops empty_net ex_ops) Line = [2] /\ sw (run_ops empty_net ex_ops) <> [] /\
-  map gid (grp (run_ops empty_net ex_ops)) = [2].
+  guarded empty_net ex_ops = true /\ el_ids (run_ops empty_net ex_ops) Line = [8] /\ bus_ids (run_ops empty_net ex_ops) = [3; 7] /\
+  map (fun g => (gid g, gmem g)) (grp (run_ops empty_net ex_ops)) = [(2, [8]); (4, [3])] /\ ctrl (run_ops empty_net ex_ops) = [] /\
+  meas (run_ops empty_net ex_ops) = [].
 Proof. exact reachable_nonvacuous. Qed.
 Print Assumptions C22_inv_reachable_nonvacuous.
 
